@@ -23,16 +23,36 @@ def ipfix_inserts():
             s(4, []), s(17, [0, 0]), s(255, [0, 9, 0, 8, 1, 1, 1, 1, 2]), s(100, list(range(1, 34))),
             s(300, [10, 0, 0, 1, 9, 9, 9, 9]), s(300, [10, 0, 0, 1, 9, 9, 9, 9, 10, 0, 0, 2, 8, 8, 8, 8]),
             s(301, [1, 2, 3, 4, 5, 6, 7, 8]), s(302, [1, 2, 3, 4, 5, 6, 7, 8, 9, 10, 11, 12]),
+            s(303, [1, 2, 3, 4, 5, 6, 7, 8]), s(303, [1, 2, 3, 4, 5, 6, 7, 8] * 2),
             # many undecodable sets in a row (each raises its own non-fatal error)
             s(999, [7]) * 12, s(300, [10, 0, 0, 1, 9, 9, 9, 9]) * 9 + s(999, []) * 3 + s(5, [1]) * 2,
             s(999, NESTED), s(300, NESTED)]
 
-# templates that make a data set undecodable: 300 uses an element missing from the model; 301 and 302 describe records
-# longer than any datagram (field lengths adding up to 65539 and 65540: beyond 16 bits)
-TBAD_MSG = [0, 10, 0, 56, 0, 0, 0, 0, 0, 0, 0, 0, 0, 0, 0, 0,      # header
-            0, 2, 0, 40, 1, 44, 0, 2, 0, 8, 0, 4, 39, 15, 0, 4,    # template 300: elements 8 and 9999
-            1, 45, 0, 2, 0, 8, 0, 4, 39, 15, 255, 255,             # template 301: (8, 4), (9999, 65535)
-            1, 46, 0, 2, 39, 14, 128, 0, 39, 15, 128, 4]           # template 302: (9998, 32768), (9999, 32772)
+def _u16(n):
+    return [(n >> 8) & 255, n & 255]
+
+
+def _ipfix_msg(sets):
+    body = [o for st in sets for o in st]
+    return [0, 10] + _u16(16 + len(body)) + [0] * 12 + body
+
+
+def _set(sid, body):
+    return _u16(sid) + _u16(4 + len(body)) + body
+
+
+# first every id is announced with a decodable layout ...
+TGOOD_MSG = _ipfix_msg([_set(2, _u16(300) + _u16(2) + _u16(8) + _u16(4) + _u16(12) + _u16(4)
+                               + _u16(301) + _u16(1) + _u16(8) + _u16(4)
+                               + _u16(302) + _u16(1) + _u16(12) + _u16(4)
+                               + _u16(303) + _u16(2) + _u16(8) + _u16(4) + _u16(4) + _u16(1))])
+# ... then redefined so that its data sets cannot be decoded: 300 uses an element missing from the model; 301 and 302 describe
+# records longer than any datagram (field lengths adding up to 65539 and 65540: beyond 16 bits); 303 is an options template
+# whose SCOPE field is missing from the model
+TBAD_MSG = _ipfix_msg([_set(2, _u16(300) + _u16(2) + _u16(8) + _u16(4) + _u16(9999) + _u16(4)
+                              + _u16(301) + _u16(2) + _u16(8) + _u16(4) + _u16(9999) + _u16(65535)
+                              + _u16(302) + _u16(2) + _u16(9998) + _u16(32768) + _u16(9999) + _u16(32772)),
+                       _set(3, _u16(303) + _u16(2) + _u16(1) + _u16(9999) + _u16(4) + _u16(8) + _u16(4))])
 
 
 def judge(ctx, proto, job, r, want_n):
@@ -99,11 +119,23 @@ def v9_inserts():
             s(4, []), s(2, [7, 7, 7, 7, 7, 7, 7, 7]), s(3, [0, 0]), s(255, [0, 9, 0, 8, 1, 1, 1, 1, 2]), s(100, list(range(1, 34))),
             s(300, [10, 0, 0, 1, 9, 9, 9, 9]), s(300, [10, 0, 0, 1, 9, 9, 9, 9, 10, 0, 0, 2, 8, 8, 8, 8]),
             s(301, [1, 2, 3, 4, 5, 6, 7, 8]), s(302, [1, 2, 3, 4, 5, 6, 7, 8, 9, 10, 11, 12]),
+            s(303, [1, 2, 3, 4, 5, 6, 7, 8]), s(303, [1, 2, 3, 4, 5, 6, 7, 8] * 2),
             s(999, [7]) * 12, s(300, [10, 0, 0, 1, 9, 9, 9, 9]) * 9 + s(999, []) * 3 + s(5, [1]) * 2,
             s(999, NESTED), s(300, NESTED)]
 
-TBAD_MSG_V9 = [0, 9, 0, 3] + [0] * 16 + [0, 0, 0, 40, 1, 44, 0, 2, 0, 8, 0, 4, 39, 15, 0, 4,
-                                       1, 45, 0, 2, 0, 8, 0, 4, 39, 15, 255, 255, 1, 46, 0, 2, 39, 14, 128, 0, 39, 15, 128, 4]
+def _v9_msg(count, sets):
+    return [0, 9] + _u16(count) + [0] * 16 + [o for st in sets for o in st]
+
+
+TGOOD_MSG_V9 = _v9_msg(4, [_set(0, _u16(300) + _u16(2) + _u16(8) + _u16(4) + _u16(12) + _u16(4)
+                                  + _u16(301) + _u16(1) + _u16(8) + _u16(4)
+                                  + _u16(302) + _u16(1) + _u16(12) + _u16(4)
+                                  + _u16(303) + _u16(2) + _u16(8) + _u16(4) + _u16(4) + _u16(4))])
+TBAD_MSG_V9 = _v9_msg(4, [_set(0, _u16(300) + _u16(2) + _u16(8) + _u16(4) + _u16(9999) + _u16(4)
+                                 + _u16(301) + _u16(2) + _u16(8) + _u16(4) + _u16(9999) + _u16(65535)
+                                 + _u16(302) + _u16(2) + _u16(9998) + _u16(32768) + _u16(9999) + _u16(32772)),
+                          # options template 303: scope length 4 (one scope field, missing from the model), option length 4
+                          _set(1, _u16(303) + _u16(4) + _u16(4) + _u16(9999) + _u16(4) + _u16(8) + _u16(4) + [0, 0])])
 
 
 def early_data(proto, c):
@@ -150,10 +182,11 @@ def part(ctx, proto, thorough):
     jobs, wants = [], []
     ins = ipfix_inserts() if proto == "ipfix" else v9_inserts()
     tbad = TBAD_MSG if proto == "ipfix" else TBAD_MSG_V9
+    tgood = TGOOD_MSG if proto == "ipfix" else TGOOD_MSG_V9
     for ci, c in enumerate(cases):
         if (ci + ctx.seed) % stride:
             continue
-        jobs.append({"exp": exps[ci % len(exps)], "hist": [tbad] + c["hist"], "hdr": codec.enc_hdr(proto, c["hdr"]),
+        jobs.append({"exp": exps[ci % len(exps)], "hist": [tgood, tbad] + c["hist"], "hdr": codec.enc_hdr(proto, c["hdr"]),
                      "sets": c["sets"], "inserts": ins, "truncate": True,
                      "trunc_inserts": [len(ins) - 2, len(ins) - 1] if (thorough or len(jobs) % 5 == 0) else [],
                      "pinserts": early_data(proto, c)})
